@@ -2,7 +2,8 @@
    as shipped (right operands parsed at precedence 0). *)
 From Coq Require Import List NArith Bool.
 From Storage Require Import Base.Bytes Lang.Tokens Lang.Lexer Lang.BoolGrammar Lang.Listener Lang.BoolSurface
-  Lang.BoolGrammarProofs Lang.LexerProofs Lang.C12Proofs Lang.Regex Lang.LexerFull Lang.WordOps Lang.WordOpsProofs Lang.WordOpsLexProofs.
+  Lang.BoolGrammarProofs Lang.LexerProofs Lang.C12Proofs Lang.Regex Lang.LexerFull Lang.WordOps Lang.WordOpsProofs Lang.WordOpsLexProofs
+  Lang.BoolRows Lang.C12W3Proofs.
 Import ListNotations.
 Open Scope N_scope.
 
@@ -153,3 +154,61 @@ Example not_between_token :
   ends_word [32; 49] /\
   lex_full (not_between_text ++ [32; 49]) = [Tok K_BETWEEN not_between_text; Tok K_WS [32]; Tok K_NUMBER [49]].
 Proof. split; [reflexivity|]. vm_compute. reflexivity. Qed.
+
+(* ---- third strengthening: repeated atoms, many redundant parentheses, rows with nil fields ---- *)
+(* x1 = a or b and c ;  x2 = (a or b) and c : the same reading once parentheses are dropped, different meaning *)
+Definition x1 : expr := EOr a (EAnd b (ELast c)).
+Definition x2 : expr := EAnd (XParen (EOr a (ELast b))) (ELast c).
+(* a = true, everything else false *)
+Definition rho_a (n : str) : bool := match n with [x] => x =? 97 | _ => false end.
+
+Example reading_without_parens_refuted :
+  strip_parens (printE x1) = strip_parens (printE x2) /\ sem x1 rho_a = true /\ sem x2 rho_a = false.
+Proof. vm_compute. repeat split. Qed.
+
+(* (a or b and c) and ((a or b) and c): both operands count - the value is not that of the left operand alone *)
+Definition both : expr := EAnd (XParen x1) (ELast (XParen x2)).
+
+Example operands_that_read_alike :
+  exists t, compile fixed_prec (printE both) = Some t /\ eval t rho_a = false /\ sem both rho_a = false /\ sem x1 rho_a = true.
+Proof. eexists. vm_compute. repeat split. Qed.
+
+(* [both] is the image of a skeleton over six distinct atoms qa .. qf under the renaming q<x> -> a, b, c, a, b, c *)
+Definition q (x : N) : prim := XAtom [113; x].
+Definition dist6 : expr :=
+  EAnd (XParen (EOr (q 97) (EAnd (q 98) (ELast (q 99)))))
+       (ELast (XParen (EAnd (XParen (EOr (q 100) (ELast (q 101)))) (ELast (q 102))))).
+Definition fold3 (n : str) : str := match n with [113; x] => [97 + (x - 97) mod 3] | _ => n end.
+
+Example repeated_atoms_instance :
+  renameE fold3 dist6 = both /\ spells_filter (renameE fold3 dist6) (printE both) /\
+  sem dist6 (fun n => rho_a (fold3 n)) = false.
+Proof. split; [reflexivity|]. split; [apply print_spells_filter|reflexivity]. Qed.
+
+(* a and b or c  ->  ((a) and (b)) or (c) : four redundant pairs *)
+Example wrap_many_instance :
+  wrap_many and_or (EOr (XParen (EAnd (XParen (ELast a)) (ELast (XParen (ELast b))))) (ELast (XParen (ELast c)))).
+Proof.
+  eapply WmStep. { exact (WeRun [a] b (ELast c)). }
+  eapply WmStep. { apply WeOrHead. apply WpIn. apply WeAndHead. apply WpHere. }
+  eapply WmStep. { apply WeOrHead. apply WpIn. apply WeAndTail. apply WeLast. apply WpHere. }
+  eapply WmStep. { apply WeOrTail. apply WeLast. apply WpHere. }
+  apply WmNone.
+Qed.
+
+(* two rows: on row 0 the atom is false (say: an ordering comparison on a nil field), on row 1 it is true *)
+Definition val01 (r : nat) (n : str) : bool := match r with O => false | _ => true end.
+
+Example not_on_a_nil_row :
+  exists t tn, compile fixed_prec (printE (ELast a)) = Some t /\
+               compile fixed_prec (printE (ENot (ELast (XParen (ELast a))))) = Some tn /\
+               select [0; 1]%nat (fun r => eval t (val01 r)) = [1]%nat /\
+               select [0; 1]%nat (fun r => eval tn (val01 r)) = [0]%nat.
+Proof. eexists. eexists. vm_compute. repeat split. Qed.
+
+(* reading  not (x < k)  as  x >= k  is not the complement where both comparisons are false (x nil):
+   atom a = "x < k", atom b = "x >= k", both false on the row *)
+Example inverse_comparison_reading_refuted :
+  exists tn (rho : str -> bool), compile fixed_prec (printE (ENot (ELast (XParen (ELast a))))) = Some tn /\
+    semP a rho = false /\ semP b rho = false /\ eval tn rho = true /\ eval tn rho <> semP b rho.
+Proof. eexists. exists (fun _ => false). vm_compute. repeat split. discriminate. Qed.
